@@ -5,7 +5,7 @@ scratch copy of /repo with the patch applied. Every report is a candidate false 
 really behaviour-preserving?). Writes benign_refactors/<id>/result.json.
   usage: benign_matrix.py [--import] [ids...]"""
 import json, os, subprocess, glob, re, shutil, sys
-V="/verif"; S="/tmp/benignmatrix-repo"; SV="/tmp/benignmatrix-verif"
+V="/verif"; S="/tmp/benignmatrix-repo-%d"%os.getpid(); SV="/tmp/benignmatrix-verif-%d"%os.getpid()
 args=sys.argv[1:]
 if "--import" in args:
     args.remove("--import")
